@@ -109,6 +109,7 @@ func newE3(p *Program, r *Reporter) *e3 {
 		r.Extra["field_facts"] = ff.notes
 		r.Extra["field_facts_failed"] = ff.failed
 	}
+	exceptionProgram = p
 	e := &e3{p: p, g: g, ff: ff, rg: newRanger(p, ff), r: r, fns: p.handlerReachableRepoFuncs()}
 	return e
 }
@@ -874,12 +875,66 @@ func (e *e3) indexClass(idx ssa.Value) string {
 	return ""
 }
 
+// mayReturnNilSlice: v is (a field-store round trip of) the slice result of a
+// repository function that returns a nil constant on some path.
+func (e *e3) mayReturnNilSlice(v ssa.Value) (string, bool) {
+	seen := map[ssa.Value]bool{}
+	var walk func(v ssa.Value, d int) (string, bool)
+	walk = func(v ssa.Value, d int) (string, bool) {
+		if v == nil || seen[v] || d > 4 {
+			return "", false
+		}
+		seen[v] = true
+		switch x := v.(type) {
+		case *ssa.Call:
+			callee := x.Call.StaticCallee()
+			if callee == nil || !e.p.isRepoFunc(callee) {
+				return "", false
+			}
+			for _, b := range callee.Blocks {
+				if ret, ok := b.Instrs[len(b.Instrs)-1].(*ssa.Return); ok && len(ret.Results) >= 1 && isNilConst(ret.Results[0]) {
+					if _, isSl := ret.Results[0].Type().Underlying().(*types.Slice); isSl {
+						return shortFn(callee), true
+					}
+				}
+			}
+		case *ssa.UnOp:
+			if x.Op == token.MUL {
+				// load of a local struct field / variable: look at the stores in the same function
+				if fa, ok := x.X.(*ssa.FieldAddr); ok {
+					fld := structFieldOf(fa.X.Type(), fa.Field)
+					for _, b := range x.Parent().Blocks {
+						for _, in := range b.Instrs {
+							if st, ok := in.(*ssa.Store); ok {
+								if g, ok := fieldOfAddr(st.Addr); ok && g == fld {
+									if n, ok := walk(st.Val, d+1); ok {
+										return n, true
+									}
+								}
+							}
+						}
+					}
+				}
+			}
+		}
+		return "", false
+	}
+	return walk(v, 0)
+}
+
 func (e *e3) indexSite(rule string, fn *ssa.Function, b *ssa.BasicBlock, in ssa.Instruction, cont, idx ssa.Value) {
 	pos := e.p.pos(instrPos(in))
 	if k, ok := constInt(idx); ok {
-		// B1: constant index on a container whose length is request-controlled
+		// B1: constant index on a container whose length is request-controlled;
+		// B1': on the result of a repository function that has an explicit nil/empty return
 		if !e.g.isShapeTainted(cont) {
-			return // not an obligation: length fixed by server-side data
+			if fnName, ok := e.mayReturnNilSlice(cont); ok {
+				construct := fmt.Sprintf("index:%s[%d]", roleKey(cont), k)
+				lb, why := e.lenLowerBound(cont, b)
+				e.r.Decide(lb > k, rule+"1p", shortFn(fn), construct, pos, fmt.Sprintf("len >= %d: %s", lb, why),
+					fmt.Sprintf("constant index %d into the result of %s, which has an explicit nil return; no dominating length test", k, fnName), e.p.callPath(fn))
+			}
+			return // otherwise not an obligation: length fixed by server-side data
 		}
 		construct := fmt.Sprintf("index:%s[%d]", roleKey(cont), k)
 		if why, ok := reviewedException(rule+"1", shortFn(fn), construct); ok {
@@ -1162,22 +1217,107 @@ func (e *e3) sliceToArraySite(rule string, fn *ssa.Function, b *ssa.BasicBlock, 
 // function, one construct, one reason each; anything else undecided is a violation.
 type exceptionEntry struct {
 	rule, fn, constructPrefix, reason string
+	premise                            func(p *Program) (bool, string) // optional: re-verified structurally on every run
 }
 
+var exceptionProgram *Program
+var premiseMemo = map[string]string{}
+
 var reviewedExceptions = []exceptionEntry{
-	{"E3-C", "app.makeWvttCuePayload", `panic:"cannot write vttc"`,
-		"internal invariant: the writer is sized by Size() of the very box that is encoded into it"},
-	{"E3-C", "patch.diffInternal", `panic:"Should never hit this!"`,
-		"algorithmic invariant of the Myers diff (the snake search always meets within the loop bound); not a request-value guard"},
-	{"E3-B1", "app.shiftTimestamp", "index:call((*regexp.Regexp).FindStringSubmatch)[",
-		"the argument is a substring returned by FindAllStringIndex of the same regexp, so the match succeeds with all groups"},
+	{rule: "E3-C", fn: "app.makeWvttCuePayload", constructPrefix: `panic:"cannot write vttc"`,
+		reason: "internal invariant: the writer is sized by Size() of the very box that is encoded into it"},
+	{rule: "E3-C", fn: "patch.diffInternal", constructPrefix: `panic:"Should never hit this!"`,
+		reason: "algorithmic invariant of the Myers diff (the snake search always meets within the loop bound); not a request-value guard"},
+	{rule: "E3-D2", fn: "app.genLiveSegment", constructPrefix: "deref:load(app.segOut.seg)",
+		reason: "segOut invariant: createOutSeg sets exactly one of data/seg; the data branch above assigns seg after a successful decode, image segments return earlier"},
+	{rule: "E3-D1", fn: "app.writeTimeSubsMediaSegment", constructPrefix: "deref:var(mediaSeg)",
+		reason: "the callee fails only if the embedded, fixed TTML template fails to execute or fragment creation fails; neither depends on the request (isLast is set by the ingester only)"},
+	{rule: "E3-D2", fn: "app.createAudioSeg", constructPrefix: "deref:load(app.RepData.ConstantSampleDuration)",
+		reason: "reached for audio representations only, which are registered only with a non-nil, non-zero constant sample duration", premise: verifyAudioSampleDurGuard},
+	{rule: "E3-D2", fn: "app.calcAudioSegRecipe", constructPrefix: "deref:load(app.RepData.ConstantSampleDuration)",
+		reason: "reached for audio representations only, which are registered only with a non-nil, non-zero constant sample duration", premise: verifyAudioSampleDurGuard},
+	{rule: "E3-D2", fn: "app.chunkSegment", constructPrefix: "deref:param(init)",
+		reason: "reached only after the segment was decoded (seg != nil), which excludes image representations, the only ones loaded without an init segment"},
+	{rule: "E3-B1", fn: "app.shiftTimestamp", constructPrefix: "index:call((*regexp.Regexp).FindStringSubmatch)[",
+		reason: "the argument is a substring returned by FindAllStringIndex of the same regexp, so the match succeeds with all groups"},
 }
 
 func reviewedException(rule, fn, construct string) (string, bool) {
 	for _, x := range reviewedExceptions {
 		if x.rule == rule && x.fn == fn && strings.HasPrefix(construct, x.constructPrefix) {
+			if x.premise != nil {
+				key := x.rule + x.fn + x.constructPrefix
+				res, done := premiseMemo[key]
+				if !done {
+					ok, why := x.premise(exceptionProgram)
+					res = "FAIL: " + why
+					if ok {
+						res = "ok: " + why
+					}
+					premiseMemo[key] = res
+				}
+				if strings.HasPrefix(res, "FAIL") {
+					return "", false // premise no longer holds: the obligation becomes a violation
+				}
+				return "reviewed exception: " + x.reason + " [premise " + res + "]", true
+			}
 			return "reviewed exception: " + x.reason, true
 		}
 	}
 	return "", false
+}
+
+// verifyAudioSampleDurGuard: every registration into asset.Reps in loadAsset is
+// dominated, on every path where the adaptation set is audio, by the test that
+// the representation has a non-nil constant sample duration.
+func verifyAudioSampleDurGuard(p *Program) (bool, string) {
+	fn := p.lookupFunc(pkgApp, "(*assetMgr).loadAsset")
+	if fn == nil {
+		return false, "loadAsset not found"
+	}
+	f := factsOf(fn)
+	n := 0
+	for _, b := range fn.Blocks {
+		for _, in := range b.Instrs {
+			mu, ok := in.(*ssa.MapUpdate)
+			if !ok {
+				continue
+			}
+			if fld, ok := loadedField(mu.Map); !ok || fld != "app.asset.Reps" {
+				continue
+			}
+			n++
+			for _, set := range f.condSets(b) {
+				notAudio, nonNil, nonZero := false, false, false
+				for _, c := range set {
+					bo, ok := c.V.(*ssa.BinOp)
+					if !ok {
+						continue
+					}
+					if fld, ok := loadedField(bo.X); ok && strings.HasSuffix(fld, ".ContentType") {
+						if s, ok := constString(bo.Y); ok && s == "audio" && ((bo.Op == token.EQL && !c.Pos) || (bo.Op == token.NEQ && c.Pos)) {
+							notAudio = true
+						}
+					}
+					if fld, ok := loadedField(bo.X); ok && fld == "app.RepData.ConstantSampleDuration" && isNilConst(bo.Y) {
+						if (bo.Op == token.EQL && !c.Pos) || (bo.Op == token.NEQ && c.Pos) {
+							nonNil = true
+						}
+					}
+					if fld, ok := loadedField(bo.X); ok && fld == "app.RepData.ConstantSampleDuration*" {
+						if k, ok := constInt(bo.Y); ok && k == 0 && ((bo.Op == token.EQL && !c.Pos) || (bo.Op == token.NEQ && c.Pos)) {
+							nonZero = true
+						}
+					}
+				}
+				if !notAudio && !(nonNil && nonZero) {
+					return false, "registration at " + p.pos(mu.Pos()) + " can be reached for an audio representation without the constant-sample-duration test"
+				}
+			}
+		}
+	}
+	if n == 0 {
+		return false, "no registration into asset.Reps in loadAsset"
+	}
+	return true, "audio representations are registered only after ConstantSampleDuration != nil && != 0 (loadAsset)"
 }
